@@ -45,6 +45,14 @@ func (c03) Cases(tier string, race bool) int {
 var c03keys = []string{"a", "b", "c", "d", "e1", "x-y", "Z_z", "ns:q", "doc", "element", "_seq", "_", "object"}
 var c03strs = []string{"", "t", "hello", " pad ", "<&>\"'", "&amp;", "&lt;", "1", "true", "é世", "a]]>b", "x\ny", "<![CDATA[q]]>", "--", "</a>", `\u003c`, `a\u0026b\u003e`, "100%", "\ufeffx", "x\ufeff", `\u2028`}
 
+// c03key: a key from the alphabet, now and then a literal of the tree under test that is a valid XML name.
+func c03key(r *rand.Rand) string {
+	if r.Intn(20) == 0 {
+		return autoName(r, "a")
+	}
+	return c03keys[r.Intn(len(c03keys))]
+}
+
 func c03scalar(r *rand.Rand) interface{} {
 	switch r.Intn(7) {
 	case 0:
@@ -58,6 +66,9 @@ func c03scalar(r *rand.Rand) interface{} {
 		}
 		return []float64{0, 1, -1.5, 1e21, 1e-7, 123456789.125, 3}[r.Intn(7)]
 	default:
+		if r.Intn(16) == 0 {
+			return autoText(r, "t")
+		}
 		return c03strs[r.Intn(len(c03strs))]
 	}
 }
@@ -80,7 +91,7 @@ func c03gen(r *rand.Rand, depth int, st *c03stats) interface{} {
 		m := map[string]interface{}{}
 		n := r.Intn(4)
 		for i := 0; i < n; i++ {
-			m[c03keys[r.Intn(len(c03keys))]] = c03gen(r, depth-1, st)
+			m[c03key(r)] = c03gen(r, depth-1, st)
 		}
 		na := r.Intn(3)
 		for i := 0; i < na; i++ {
@@ -92,7 +103,7 @@ func c03gen(r *rand.Rand, depth int, st *c03stats) interface{} {
 					st.nullAttr = true
 				}
 			}
-			m["-"+c03keys[r.Intn(len(c03keys))]] = v
+			m["-"+c03key(r)] = v
 			st.attr = true
 		}
 		if r.Intn(3) == 0 {
@@ -254,7 +265,7 @@ func (c03) Case(c *core.Ctx) {
 		m := map[string]interface{}{}
 		nk := 1 + r.Intn(3)
 		for j := 0; j < nk; j++ {
-			m[c03keys[r.Intn(len(c03keys))]] = c03gen(r, 4, &st)
+			m[c03key(r)] = c03gen(r, 4, &st)
 		}
 		if len(m) == 1 {
 			for _, v := range m {
@@ -270,10 +281,11 @@ func (c03) Case(c *core.Ctx) {
 			c.Count("root:explicit-tag")
 		}
 		if r.Intn(6) == 0 {
-			// pad one string so that the compact encoding is exactly a multiple of 4096 bytes (buffer boundaries)
+			// pad one string so that the compact encoding is exactly a multiple of 4096 bytes - or of an integer literal of the tree - (buffer boundaries)
 			m["pad"] = "p"
 			if x0, e0 := mxj.Map(m).Xml(tag...); e0 == nil {
-				m["pad"] = strings.Repeat("p", 1+(4096-len(x0)%4096)%4096)
+				blk := autoBlock(r)
+				m["pad"] = strings.Repeat("p", 1+(blk-len(x0)%blk)%blk)
 				c.Count("shape:output-multiple-of-4096")
 			}
 		}
